@@ -1,6 +1,7 @@
 package reedsolomon
 
 import (
+	"errors"
 	"fmt"
 	"hash"
 
@@ -39,6 +40,9 @@ func Decode(data []byte, twoS int) error {
 		return fmt.Errorf("reedsolomon: failed to decode: %w", err)
 	}
 	errorLocations := findErrorLocations(sigma)
+	if len(errorLocations) != sigma.Degree() {
+		return errors.New("reedsolomon: error locator degree does not match number of roots")
+	}
 	errorMagnitudes := findErrorMagnitudes(omega, errorLocations)
 
 	for i := range errorLocations {
@@ -47,6 +51,14 @@ func Decode(data []byte, twoS int) error {
 			return fmt.Errorf("reedsolomon: bad location: %d", pos)
 		}
 		data[pos] = byte(element.Add(element.Element(data[pos]), errorMagnitudes[i]))
+	}
+
+	// verify the result: a corrected word must be a codeword.
+	p = poly.NewPoly(data)
+	for i := 0; i < twoS; i++ {
+		if p.Eval(element.Exp(i)) != 0 {
+			return errors.New("reedsolomon: too many errors")
+		}
 	}
 	return nil
 }
